@@ -203,7 +203,9 @@ func (d *decoder) decodeFileData() error {
 				return fmt.Errorf("parsing compressed timestamp message: %w", err)
 			}
 			if msg.IsValid() {
-				d.file.add(msg)
+				if err = d.addMsg(msg); err != nil {
+					return fmt.Errorf("parsing compressed timestamp message: %w", err)
+				}
 			}
 		case (b & mesgDefinitionMask) == mesgDefinitionMask:
 			dm, err = d.parseDefinitionMessage(b)
@@ -217,13 +219,29 @@ func (d *decoder) decodeFileData() error {
 				return fmt.Errorf("parsing data message: %w", err)
 			}
 			if msg.IsValid() {
-				d.file.add(msg)
+				if err = d.addMsg(msg); err != nil {
+					return fmt.Errorf("parsing data message: %w", err)
+				}
 			}
 		default:
 			return fmt.Errorf("unknown record header, got: %#x", b)
 		}
 	}
 
+	return nil
+}
+
+// addMsg adds a decoded message to the file. The file type was fixed by the
+// first file_id message, which selected the message container: a later
+// file_id message must not change it.
+func (d *decoder) addMsg(msg reflect.Value) error {
+	if id, ok := msg.Interface().(FileIdMsg); ok && id.Type != d.file.FileId.Type {
+		return FormatError(fmt.Sprintf(
+			"file_id message changes file type from %v to %v",
+			d.file.FileId.Type, id.Type,
+		))
+	}
+	d.file.add(msg)
 	return nil
 }
 
